@@ -13,7 +13,7 @@ for n, (needs, result) in sorted(spec.items()):
     title = open(f"{src}/notes.md").readline().strip("# \n")
     title = title.split("—", 1)[-1].split(" - ", 1)[-1].strip() if title.lower().startswith("change") else title
     meta = {"property": P, "change": title, "needs_to_manifest": needs,
-            "written_by": "independent sub-agent (second round: told the first round's changes in one line each, nothing from /verif) with its own scratch worktree",
+            "written_by": "independent sub-agent (fifth round: told the earlier rounds' changes in one line each, nothing from /verif) with its own scratch worktree",
             "confirmed": "applied in the scratch worktree: 244/244 tests pass with the patch; demo.py exits 1 with the patch and 0 without (tools/try_seeds.py)",
             "ran": "VERIF_PYOAK_SRC=<patched worktree>/src ./check <owning checks> (quick, seed 0)", "result": result}
     json.dump(meta, open(f"{dst}/meta.json", "w"), indent=1, ensure_ascii=False)
